@@ -3,6 +3,227 @@
 -/
 import Rtcp.Spec.All
 import Rtcp.Proofs.SdesScan
+import Rtcp.Proofs.ReadLemmas
+import Rtcp.Proofs.BufLemmas
+
+/-! ## helper lemmas (own namespace, to avoid clashes with sibling proof files) -/
+
+namespace Rtcp.Proofs.SdesEnc
+open Rtcp Rtcp.Impl Rtcp.Spec
+
+/-! ### the tokeniser on encoder images -/
+
+theorem u8_of_lt {n : Nat} (h : n < 256) : (n % 256).toUInt8.toNat = n := by
+  simp [Nat.toUInt8]; omega
+
+theorem be32_decode (x : UInt32) : ∃ a b c d, be32 x = [a, b, c, d] ∧
+    (a.toNat * 16777216 + b.toNat * 65536 + c.toNat * 256 + d.toNat).toUInt32 = x := by
+  refine ⟨_, _, _, _, rfl, ?_⟩
+  apply UInt32.toNat_inj.mp
+  have := x.toNat_lt
+  simp only [Nat.toUInt32, Nat.toUInt8, UInt32.toNat_ofNat', UInt8.toNat_ofNat']
+  omega
+
+/-- a raw item followed by anything: the tokeniser consumes exactly the item -/
+theorem refItems_raw (fuel pos : Nat) (t l : UInt8) (data R : Bytes)
+    (ht : t ≠ 0) (hl : l.toNat = data.length)
+    (hs : t = 8 → RefItem.privSplit ⟨t, data⟩ ≠ none) :
+    refItems (fuel + 1) pos (t :: l :: (data ++ R)) =
+      match refItems fuel (pos + 2 + data.length) R with
+      | some (its, after) => some (⟨t, data⟩ :: its, after)
+      | none => none := by
+  simp only [refItems, ht, if_false, hl, List.length_append]
+  rw [if_neg (by omega), List.take_left, List.drop_left, if_neg (fun h => hs h.1 h.2)]
+  rfl
+
+theorem itemImage_shape (it : SdesItemBuilder) (hr : itemRules it = []) :
+    ∃ l data, itemImage it = it.type :: l :: data ∧ l.toNat = data.length ∧
+      itemCfgAsRef it = ⟨it.type, data⟩ ∧ (it.type = 8 → RefItem.privSplit ⟨it.type, data⟩ ≠ none) := by
+  unfold itemRules at hr
+  unfold itemImage itemCfgAsRef
+  by_cases h8 : it.type = 8
+  · simp only [h8, if_true] at hr ⊢
+    split at hr; · cases hr
+    split at hr; · cases hr
+    rename_i hp hv
+    refine ⟨((it.prefix_.length + 1 + it.value.length) % 256).toUInt8,
+      (it.prefix_.length % 256).toUInt8 :: (it.prefix_ ++ it.value), by simp, ?_, rfl, ?_⟩
+    · rw [u8_of_lt (by omega)]; simp; omega
+    · intro _
+      simp [RefItem.privSplit, u8_of_lt (show it.prefix_.length < 256 by omega)]
+  · simp only [h8, if_false] at hr ⊢
+    split at hr; · cases hr
+    rename_i hv
+    refine ⟨_, it.value, rfl, ?_, rfl, ?_⟩
+    · rw [u8_of_lt (by omega)]
+    · intro h; exact h.elim
+
+
+theorem refItems_term (fuel pos k : Nat) (tail : Bytes) (hk : k = (4 - (pos + 1) % 4) % 4) :
+    refItems (fuel + 1) pos (0 :: (List.replicate k 0 ++ tail)) = some ([], tail) := by
+  subst hk
+  simp only [refItems, if_true, List.length_append, List.length_replicate]
+  rw [if_neg (by omega), List.take_left' (by simp), List.drop_left' (by simp), if_pos (by simp)]
+
+theorem refItems_items (its : List SdesItemBuilder) :
+    ∀ (fuel pos k : Nat) (tail : Bytes),
+      (∀ it ∈ its, itemRules it = [] ∧ it.type ≠ 0) →
+      ((its.map itemImage).flatten).length < fuel →
+      k = (4 - (pos + ((its.map itemImage).flatten).length + 1) % 4) % 4 →
+      refItems fuel pos ((its.map itemImage).flatten ++ 0 :: (List.replicate k 0 ++ tail))
+        = some (its.map itemCfgAsRef, tail) := by
+  induction its with
+  | nil =>
+    intro fuel pos k tail _ hf hk
+    obtain ⟨f, rfl⟩ : ∃ f, fuel = f + 1 := ⟨fuel - 1, by omega⟩
+    simp only [List.map_nil, List.flatten_nil, List.nil_append, List.length_nil, Nat.add_zero] at hk ⊢
+    exact refItems_term f pos k tail hk
+  | cons it its ih =>
+    intro fuel pos k tail h hf hk
+    obtain ⟨f, rfl⟩ : ∃ f, fuel = f + 1 := ⟨fuel - 1, by omega⟩
+    have hit := h it (List.mem_cons_self ..)
+    obtain ⟨l, data, himg, hl, hcfg, hs⟩ := itemImage_shape it hit.1
+    simp only [List.map_cons, List.flatten_cons, List.length_append, List.append_assoc] at hf hk ⊢
+    rw [himg] at hf hk ⊢
+    simp only [List.cons_append, List.length_cons] at hf hk ⊢
+    rw [refItems_raw f pos it.type l data _ hit.2 hl hs,
+      ih f (pos + 2 + data.length) k tail (fun x hx => h x (List.mem_cons_of_mem _ hx)) (by omega)
+        (by rw [hk]; congr 3; omega), hcfg]
+
+
+theorem chunkImage_app (c : SdesChunkBuilder) (R : Bytes) :
+    ∃ k, k = (4 - (4 + ((c.items.map itemImage).flatten).length + 1) % 4) % 4 ∧
+      chunkImage c ++ R = be32 c.ssrc ++ ((c.items.map itemImage).flatten ++ 0 ::
+        (List.replicate k 0 ++ R)) := by
+  refine ⟨_, ?_, by simp only [chunkImage, zfill, List.append_assoc, List.cons_append, List.nil_append]; rfl⟩
+  simp only [List.length_append, be32_length, List.length_cons, List.length_nil, pad4]
+  omega
+
+theorem refChunks_chunks (cs : List SdesChunkBuilder) :
+    ∀ (fuel : Nat), (∀ c ∈ cs, ∀ it ∈ c.items, itemRules it = [] ∧ it.type ≠ 0) →
+      ((cs.map chunkImage).flatten).length ≤ fuel →
+      refChunks fuel ((cs.map chunkImage).flatten) = some (cs.map chunkCfgAsRef) := by
+  induction cs with
+  | nil => intro fuel _ _; simp [refChunks]
+  | cons c cs ih =>
+    intro fuel h hf
+    have hc := h c (List.mem_cons_self ..)
+    obtain ⟨a, b, c', d, hbe, hdec⟩ := be32_decode c.ssrc
+    obtain ⟨k, hk, himg⟩ := chunkImage_app c ((cs.map chunkImage).flatten)
+    simp only [List.map_cons, List.flatten_cons] at hf ⊢
+    rw [himg] at hf ⊢
+    rw [hbe] at hf ⊢
+    simp only [List.cons_append, List.nil_append, List.length_cons, List.length_append,
+      List.length_replicate] at hf
+    obtain ⟨f, rfl⟩ : ∃ f, fuel = f + 1 := ⟨fuel - 1, by omega⟩
+    simp only [List.cons_append, List.nil_append, refChunks]
+    rw [refItems_items c.items _ 4 k _ hc (by simp <;> omega) hk]
+    simp only
+    rw [ih f (fun x hx => h x (List.mem_cons_of_mem _ hx)) (by omega), hdec]
+    rfl
+
+
+/-! ### framing facts about `packet` images -/
+
+theorem b0_toNat (pb : Bool) (count : Nat) :
+    ((128 + (if pb then 32 else 0) + count % 32).toUInt8).toNat = 128 + (if pb then 32 else 0) + count % 32 := by
+  simp only [Nat.toUInt8, UInt8.toNat_ofNat']
+  cases pb <;> simp <;> omega
+
+theorem packet_cons (pt : UInt8) (count : Nat) (p : UInt8) (body : Bytes) :
+    packet pt count p body =
+      (128 + (if (p != 0) = true then 32 else 0) + count % 32).toUInt8 :: pt ::
+      (((4 + body.length + p.toNat) / 4 - 1) % 65536 / 256 % 256).toUInt8 ::
+      (((4 + body.length + p.toNat) / 4 - 1) % 65536 % 256).toUInt8 :: (body ++ trailer p) := by
+  have e : (((4 + body.length + p.toNat) / 4 - 1) % 65536).toUInt16.toNat
+      = ((4 + body.length + p.toNat) / 4 - 1) % 65536 := by
+    simp only [Nat.toUInt16, UInt16.toNat_ofNat']; omega
+  simp only [packet, header, be16, trailer_length, e, List.cons_append, List.nil_append]
+
+theorem pk_version (pt : UInt8) (count : Nat) (p : UInt8) (body : Bytes) :
+    version (packet pt count p body) = 2 := by
+  rw [packet_cons]; simp only [version, List.getD_cons_zero, b0_toNat]
+  split <;> omega
+
+theorem pk_ptype (pt : UInt8) (count : Nat) (p : UInt8) (body : Bytes) :
+    ptype (packet pt count p body) = pt := by
+  rw [packet_cons]; simp [ptype]
+
+theorem pk_pbit (pt : UInt8) (count : Nat) (p : UInt8) (body : Bytes) :
+    pbit (packet pt count p body) = (p != 0) := by
+  rw [packet_cons]; simp only [pbit, List.getD_cons_zero, b0_toNat]
+  cases h : (p != 0) <;> simp <;> omega
+
+theorem pk_lengthField (pt : UInt8) (count : Nat) (p : UInt8) (body : Bytes)
+    (h4 : (4 + body.length + p.toNat) % 4 = 0) (hs : 4 + body.length + p.toNat ≤ 262144) :
+    lengthField (packet pt count p body) = 4 + body.length + p.toNat := by
+  rw [packet_cons]
+  simp only [lengthField, List.getD_cons_zero, List.getD_cons_succ, Nat.toUInt8, UInt8.toNat_ofNat']
+  omega
+
+theorem pk_lastByte (pt : UInt8) (count : Nat) (p : UInt8) (body : Bytes) (hp : p ≠ 0) :
+    lastByte (packet pt count p body) = p := by
+  simp [lastByte, packet, trailer, hp]
+
+theorem pk_paddingOf (pt : UInt8) (count : Nat) (p : UInt8) (body : Bytes) :
+    paddingOf (packet pt count p body) = getPaddingOf p := by
+  unfold paddingOf getPaddingOf
+  rw [pk_pbit]
+  by_cases hp : p = 0
+  · simp [hp]
+  · simp [hp, pk_lastByte]
+
+theorem pk_padLen (pt : UInt8) (count : Nat) (p : UInt8) (body : Bytes) :
+    padLen (packet pt count p body) = p.toNat := by
+  unfold padLen; rw [pk_paddingOf]; unfold getPaddingOf
+  by_cases hp : p = 0 <;> simp [hp]
+
+theorem pk_sdesBody (pt : UInt8) (count : Nat) (p : UInt8) (body : Bytes) :
+    sdesBody (packet pt count p body) = body := by
+  unfold sdesBody
+  rw [pk_padLen, packet_length]
+  simp only [range, packet]
+  rw [show 4 + body.length + p.toNat - p.toNat = (header pt (p != 0) count (4 + body.length + (trailer p).length) ++ body).length by simp <;> omega]
+  rw [List.take_left, List.drop_left' (by simp)]
+
+/-! ### the SDES rules -/
+
+theorem chunks_length_mod (cs : List SdesChunkBuilder) : ((cs.map chunkImage).flatten).length % 4 = 0 := by
+  induction cs with
+  | nil => rfl
+  | cons c cs ih =>
+    simp only [List.map_cons, List.flatten_cons, List.length_append]
+    have : (chunkImage c).length % 4 = 0 := by
+      unfold chunkImage; rw [zfill_length]; exact pad4_mod _
+    omega
+
+theorem sdesRules_nil (b : SdesBuilder) (h : sdesRules b = []) :
+    b.padding.toNat % 4 = 0 ∧ (∀ c ∈ b.chunks, ∀ it ∈ c.items, itemRules it = []) ∧
+    4 + ((b.chunks.map chunkImage).flatten).length + b.padding.toNat ≤ 262144 := by
+  unfold sdesRules at h
+  simp only at h
+  rw [List.append_eq_nil_iff] at h
+  obtain ⟨hb, hs⟩ := h
+  rw [if_pos hb] at hs
+  rw [List.append_eq_nil_iff, List.append_eq_nil_iff] at hb
+  obtain ⟨⟨_, hp⟩, hc⟩ := hb
+  refine ⟨?_, ?_, ?_⟩
+  · unfold padRule at hp
+    split at hp
+    · cases hp
+    · omega
+  · intro c hc' it hit
+    rw [List.flatten_eq_nil_iff] at hc
+    have := hc (chunkRules c) (List.mem_map_of_mem hc')
+    unfold chunkRules at this
+    rw [List.flatten_eq_nil_iff] at this
+    exact this _ (List.mem_map_of_mem hit)
+  · unfold sizeRule at hs
+    split at hs
+    · cases hs
+    · omega
+
+end Rtcp.Proofs.SdesEnc
 
 namespace Rtcp.Proofs
 open Rtcp Rtcp.Impl Rtcp.Spec
@@ -10,31 +231,85 @@ open Rtcp Rtcp.Impl Rtcp.Spec
 /-- the reference tokeniser accepts exactly the reference encoder's images: must-accept (C10) -/
 theorem refTok_encode (cs : List SdesChunkBuilder)
     (h : ∀ c ∈ cs, ∀ it ∈ c.items, itemRules it = [] ∧ it.type ≠ 0) :
-    refTok ((cs.map chunkImage).flatten) = some (cs.map chunkCfgAsRef) := by
-  sorry
+    refTok ((cs.map chunkImage).flatten) = some (cs.map chunkCfgAsRef) :=
+  SdesEnc.refChunks_chunks cs _ h (Nat.le_refl _)
 
 /-- the encoded length of a well-formed chunk is what `length()` reports for it -/
 theorem chunkImage_length (c : SdesChunkBuilder) :
     (chunkImage c).length = pad4 (4 + (c.items.map (fun it => (itemImage it).length)).sum + 1) := by
-  sorry
+  unfold chunkImage
+  rw [zfill_length]
+  simp only [List.length_append, be32_length, List.length_flatten, List.map_map, Function.comp_def,
+    List.length_cons, List.length_nil]
 
 theorem sdes_roundtrip {ε : Type} (b : SdesBuilder) (h : sdesRules b = [])
     (hz : ∀ c ∈ b.chunks, ∀ it ∈ c.items, it.type ≠ 0) :
     ∃ v, Sdes.parse (sdesImage b) = .ok v ∧
       v.chunks.map chunkAsRef = b.chunks.map chunkCfgAsRef ∧
       (Sdes.padding v : R ε (Option UInt8)) = .ok (getPaddingOf b.padding) := by
-  sorry
+  obtain ⟨hp4, hrules, hsize⟩ := SdesEnc.sdesRules_nil b h
+  have hmod := SdesEnc.chunks_length_mod b.chunks
+  have himg : sdesImage b = packet 202 b.chunks.length b.padding (b.chunks.map chunkImage).flatten := rfl
+  have hlen : (sdesImage b).length = 4 + ((b.chunks.map chunkImage).flatten).length + b.padding.toNat := by
+    rw [himg, packet_length]
+  have hlf : lengthField (sdesImage b) = (sdesImage b).length := by
+    rw [hlen, himg]; exact SdesEnc.pk_lengthField _ _ _ _ (by omega) hsize
+  have hpad : padLen (sdesImage b) = b.padding.toNat := by rw [himg, SdesEnc.pk_padLen]
+  have hframed : WellFramed 4 202 (sdesImage b) := by
+    rw [Read.wellFramed_iff]
+    refine ⟨by omega, by omega, ?_, ?_, hlf, ?_⟩
+    · rw [himg, SdesEnc.pk_version]
+    · rw [himg, SdesEnc.pk_ptype]
+    · rw [himg, SdesEnc.pk_pbit]
+      intro hp
+      have hp' : b.padding ≠ 0 := by simpa using hp
+      rw [SdesEnc.pk_lastByte _ _ _ _ hp']
+      exact hp'
+  have htok : refTok (sdesBody (sdesImage b)) = some (b.chunks.map chunkCfgAsRef) := by
+    rw [himg, SdesEnc.pk_sdesBody]
+    exact refTok_encode b.chunks (fun c hc it hit => ⟨hrules c hc it hit, hz c hc it hit⟩)
+  cases hparse : Sdes.parse (sdesImage b) with
+  | ok v =>
+    obtain ⟨hdata, _, _, ht, _⟩ := sdes_parse_accepts (sdesImage b) v hparse
+    refine ⟨v, rfl, ?_, ?_⟩
+    · rw [htok] at ht
+      exact (Option.some.inj ht).symm
+    · unfold Sdes.padding
+      rw [hdata, Read.parsePadding_ok _ (by omega) hlf, himg, SdesEnc.pk_paddingOf]
+  | err e =>
+    exact absurd ⟨hframed, by omega, by rw [htok]; rfl⟩ (sdes_parse_rejects (sdesImage b) e hparse)
+  | panic => exact absurd hparse (sdes_parse_no_panic (sdesImage b))
 
 /-- a PRIV prefix that overruns its item is rejected -/
 theorem ref_rejects_priv_overrun (fuel pos : Nat) (l pl : UInt8) (rest : Bytes)
     (hl : l.toNat ≤ rest.length + 1) (h1 : 1 ≤ l.toNat) (h : l.toNat - 1 < pl.toNat) :
     refItems (fuel + 1) pos (8 :: l :: pl :: rest) = none := by
-  sorry
+  obtain ⟨k, hk⟩ : ∃ k, l.toNat = k + 1 := ⟨l.toNat - 1, by omega⟩
+  have h8 : (8 : UInt8) ≠ 0 := by decide
+  have hsplit : RefItem.privSplit ⟨8, pl :: rest.take k⟩ = none := by
+    simp only [RefItem.privSplit, List.length_take]
+    rw [if_neg]
+    omega
+  simp only [refItems, h8, if_false, List.length_cons, hk, List.take_succ_cons]
+  rw [if_neg (by omega)]
+  simp [hsplit]
 
 /-- non-zero bytes in a chunk's fill are rejected -/
 theorem ref_rejects_nonzero_fill (fuel pos : Nat) (rest : Bytes)
     (h : ∃ i, i < (4 - (pos + 1) % 4) % 4 ∧ i < rest.length ∧ rest.getD i 0 ≠ 0) :
     refItems (fuel + 1) pos (0 :: rest) = none := by
-  sorry
+  obtain ⟨i, hi, hir, hne⟩ := h
+  simp only [refItems, if_true]
+  split
+  · rfl
+  · rw [if_neg]
+    intro hall
+    rw [List.all_eq_true] at hall
+    have hmem : rest[i] ∈ rest.take ((4 - (pos + 1) % 4) % 4) := by
+      rw [List.mem_take_iff_getElem]
+      exact ⟨i, by omega, rfl⟩
+    have := hall _ hmem
+    apply hne
+    simpa [List.getD_eq_getElem?_getD, List.getElem?_eq_getElem hir] using this
 
 end Rtcp.Proofs
